@@ -3,7 +3,7 @@
 # Confirms a seeded change in a scratch worktree of /repo HEAD: (1) patch applies + builds, (2) existing tests of the touched packages pass with it,
 # (3) the demonstration FAILS with the change, (4) PASSES without it. Then copies everything to /verif/seeded/<ID>/ and writes confirm.log.
 set -u
-id=$1; out=$2; demo=$3; dest=$4; pkg=$5; run=$6; shift 6
+id=${SEED_NAME:-$1}; out=$2; demo=$3; dest=$4; pkg=$5; run=$6; shift 6
 wt=$(mktemp -d /tmp/wt-seed-XXXX)
 git -C /repo worktree add --detach "$wt" HEAD -q || exit 2
 trap 'git -C /repo worktree remove --force "$wt" >/dev/null 2>&1; rm -rf "$wt"' EXIT
